@@ -296,7 +296,7 @@ def decision_margin_ok(d, x):
             return True
         from .c17 import fb_matrix
         P = p['P']
-        NP = min(len(x) - P, 100)
+        NP = len(x) - P
         S = np.linalg.svd(fb_matrix(x, P, NP), compute_uv=False)
         if sel == 'threshold':
             r = S / (1.5 * S[-1])
